@@ -432,6 +432,38 @@ def gen_history(tier):
                     yield {"sub": "script-history-" + gtype, "history": True, "script_object": True, "gtype": gtype, "ops": [a, b], "warm": (a + b) % 4 < 2}
 
 
+def gen_big(tier):
+    """Beyond the small scope: 4 species, 3 reactions (orders up to 3), 5 environments (listed in another order than the cell
+    map uses them), grids with all three dimensions different and > 1, a 6-node graph whose edges are declared in both
+    orientations; and extreme magnitudes of D, k and volume (no absolute thresholds may hide in the rate law)."""
+    envs = ["e4", "e0", "e3", "e1", "e2"]
+    rx = [{"eq": [[["A", 1], ["B", 1]], [["C", 1]]], "kf": {"e0": 0.5, "e1": 0.25, "e2": 2.0, "e3": 0.0, "e4": 1.5}, "kr": 0.75},
+          {"eq": [[["C", 2], ["D", 1]], [["A", 1]]], "kf": 0.125, "kr": {"e2": 3.0, "default": 0.5}},
+          {"eq": [[["D", 1]], [["B", 1], ["D", 1]]], "kf": {"e4": 2.5, "e1": 0.5}, "kr": 0.0}]
+    Dm = [{"e0": 2.0, "e1": 6.0, "e2": 1.0, "e3": 0.0, "e4": 3.0}, 1.5, {"e1": 4.0, "default": 0.5}, {"e2": 2.0}]
+    k = 0
+    for scale_name, sD, sk, vol in (("unit", 1.0, 1.0, 2.0), ("tiny-D", 1e-20, 1.0, 2.0), ("huge-D", 1e12, 1.0, 2.0),
+                                    ("tiny-k-huge-volume", 1.0, 1e-15, 1e9), ("huge-k-tiny-volume", 1.0, 1e9, 1e-6)):
+        def sc(v, f):
+            return {a: b * f for a, b in v.items()} if isinstance(v, dict) else v * f
+        species = [{"label": l, "D": sc(Dm[i], sD)} for i, l in enumerate("ABCD")]
+        reactions = [{"eq": r["eq"], "kf": sc(r["kf"], sk), "kr": sc(r["kr"], sk)} for r in rx]
+        shapes = [(4, 3, 2), (2, 3, 4), (5, 1, 2)] if tier == "thorough" else [(4, 3, 2)]
+        for (w, h, d) in shapes:
+            n = w * h * d
+            for bc in ({"x": "periodical", "z": "periodical"}, {}):
+                k += 1
+                spec = {"species": species, "reactions": reactions, "envs": envs,
+                        "space": {"type": "grid", "w": w, "h": h, "d": d, "bc": bc, "env": [(3 * i + i // 5) % 5 for i in range(n)], "vol": vol},
+                        "state": [1.0 + ((7 * q) % 13) for q in range(4 * n)]}
+                yield {"sub": "big-grid:" + scale_name, "spec": spec, "observers": ["euler"] + (["kin"] if (k % 4 == 1 and n <= 24 and tier == "thorough") else [])}
+        nodes = [{"vol": vol * [1.0, 8.0, 0.5, 27.0, 2.0, 3.0][i], "env": [4, 0, 2, 1, 3, 0][i]} for i in range(6)]
+        edges = [[0, 1, 1.5, 0.75], [2, 1, 2.5, 1.25], [2, 3, 0.5, 2.0], [4, 3, 3.5, 0.25], [4, 5, 1.0, 1.0], [0, 5, 2.0, 1.5], [5, 2, 0.75, 3.0]]
+        spec = {"species": species, "reactions": reactions, "envs": envs, "space": {"type": "graph", "nodes": nodes, "edges": edges},
+                "state": [1.0 + ((7 * q) % 13) for q in range(24)]}
+        yield {"sub": "big-graph:" + scale_name, "spec": spec, "observers": ["euler", "kin"]}
+
+
 _CASES = None
 
 
@@ -472,6 +504,8 @@ def run(ctx):
              "maps (all maps for <=4 cells) x D patterns incl. a zero-D wall", gen_diffusion_grid),
             ("diffusion law on graphs: all simple graphs on 1..4 nodes x environment maps x D patterns", gen_diffusion_graph),
             ("layout: all ordered pairs of an 8-reaction catalogue x 3 environment/cell configurations", gen_layout),
+            ("beyond the small scope: 4 species / 3 reactions / 5 environments on 4x3x2-like grids and a 6-node graph, x 5 magnitude "
+             "regimes (D 1e-20..1e12, k 1e-15..1e9, volume 1e-6..1e9)", gen_big),
             ("histories: one system object modified through its public setters (state entry, kf, kr, D, cell environment, volume, "
              "chemostat flag) - every single modification and every ordered pair of 8 - then observed (kinetics + Euler step); and "
              "the same script object simulated before and after each modification of its system (parameter scan)", gen_history)]
